@@ -90,7 +90,7 @@ def run(tier):
     batches = [("lin-%d" % i, cases[i::nb], False) for i in range(nb) if cases[i::nb]]
     # lineages whose generation numbers cross digit boundaries (8, 9, 10, ... 100+): every key is overwritten in every generation, then
     # everything is compacted at once (the order of the inputs decides which version survives), read, restarted, read
-    for ngen in [12, 31, 104]:
+    for ngen in [12, 31, 104, 300]:
         u = dbgen.Uniq("g")
         st = [dbgen.open_step(500, 1 << 30, 1000, mem=1 << 30)]
         for i in range(ngen):
